@@ -999,7 +999,8 @@ MANIFEST = {
             "state in which closing has begun, a silent-peer side run checks that the transport is "
             "dropped within close+drop timeouts (+1 s timer granularity) and that no timer has an "
             "effect afterwards."
-            " From CONNECTING also well-formed handshakes that must be refused (alone and with a frame behind them in the same read: never OPEN, nothing delivered); the bounded-time side run is repeated against a peer that has also stopped reading (only an abort ends the connection).",
+            " From CONNECTING also well-formed handshakes that must be refused (alone and with a frame behind them in the same read: never OPEN, nothing delivered); the bounded-time side run is repeated against a peer that has also stopped reading (only an abort ends the connection)."
+            " Further configurations: options declared per connection while the factory's differ; automatic pings with the peer answering the outstanding ping.",
     "note": "Trusted: env/ transports and clock, canonical snapshot (over-fine: all close-related "
             "attributes, buffers, timers, transport flags, log abstraction). Depth-bounded; one payload "
             "per event kind.",
